@@ -1720,6 +1720,9 @@ def rf157(run):
                     kind = 'export'
                 if 'forward of undefined item' in m_:
                     kind = 'forward'
+                if '%s of undefined item' in m_ and 'export' in msg and 'forward' in msg:
+                    kind = 'export / forward'
+                    n += 1
             if kind is None:
                 continue
             n += 1
